@@ -173,7 +173,11 @@ func judgeC16(c *Ctx, sc *Scenario) *Violation {
 	if sc.Real {
 		s := sc.Clone()
 		s.Real = false
-		return c16RealOracle(sc, c.sim(c.B.FcVerif, s), RunReal(c.B.FcOff, sc, c.Work))
+		r := c.sim(c.B.FcVerif, s)
+		if v := c16Oracle(s, r); v != nil {
+			return v // a hang or crash in simulation: do not wait for it again on the real directory
+		}
+		return c16RealOracle(sc, r, RunReal(c.B.FcOff, sc, c.Work))
 	}
 	r := c.sim(c.B.FcVerif, sc)
 	return c16Oracle(sc, r)
@@ -509,6 +513,16 @@ func checkC16(tier string) {
 			c.count("fault_run_exit0", 1)
 		} else {
 			c.count(fmt.Sprintf("fault_run_exit%d", res.Exit), 1)
+		}
+		// faults a real directory can show as well (missing or directory input, damaged stored input, destination
+		// is a directory): the shipped binary on a real directory must behave like the simulated run
+		if i%10 == 0 && len(sc.Faults) == 0 && sc.Disk.Capacity == 0 && !res.Budget && c16Oracle(sc, res) == nil {
+			rs := sc.Clone()
+			rs.Real = true
+			c.count("real_directory_runs_with_natural_fault", 1)
+			if rv := judgeC16(c, rs); rv != nil {
+				return outcome{rs, rv}
+			}
 		}
 		if i%211 == 0 {
 			var dm []Damage
